@@ -102,6 +102,13 @@ fn corrupt(doc: &Value, kind: usize, rng: &mut Rng) -> Option<(Value, &'static s
         3 => { let l = d["cell_vertices"][&k].as_array_mut()?; l[0] = Value::String("00000000-0000-4000-8000-000000000001".into()); name = "unknown_vertex_uuid"; }
         4 => { if cv_keys.len() < 2 { return None; } let other = cv_keys.iter().find(|x| **x != k)?.clone(); let v = d["cell_vertices"][&other].clone(); d["cell_vertices"][&k] = v; name = "duplicate_cell"; }
         5 => { d["cell_vertices"].as_object_mut()?.remove(&k); name = "missing_cell_entry"; }
+        13 => {
+            if cv_keys.len() < 2 { return None; }
+            let other = cv_keys.iter().find(|x| **x != k)?.clone();
+            let mut v = d["cell_vertices"][&other].clone();
+            v.as_array_mut()?.swap(0, 1);
+            d["cell_vertices"][&k] = v; name = "duplicate_cell_permuted";
+        }
         6 => {
             let vs = d["vertices"].as_array_mut()?;
             let live: Vec<usize> = vs.iter().enumerate().filter(|(_, s)| !s["value"].is_null()).map(|(i, _)| i).collect();
@@ -189,11 +196,11 @@ fn malformed<const D: usize>(id: &str, w: &mut World<D>, rng: &mut Rng, out: &mu
             Err(_) => emit_sdoc::<D>(id, "intact", &doc, None, "panic", out),
         }
     }
-    for kind in 0..13 {
+    for kind in 0..14 {
         let Some((bad, name)) = corrupt(&doc, kind, rng) else { continue };
         let text = bad.to_string();
         let r = catch(|| serde_json::from_str::<T<D>>(&text).map_err(|e| e.to_string()));
-        if matches!(kind, 0 | 1 | 2 | 3 | 4 | 5 | 6 | 7 | 9 | 11) {
+        if matches!(kind, 0 | 1 | 2 | 3 | 4 | 5 | 6 | 7 | 9 | 11 | 13) {
             match &r {
                 Ok(Ok(tds)) => emit_sdoc::<D>(id, name, &bad, Some(tds), "loaded", out),
                 Ok(Err(_)) => emit_sdoc::<D>(id, name, &bad, None, "rejected", out),
@@ -224,6 +231,57 @@ fn malformed<const D: usize>(id: &str, w: &mut World<D>, rng: &mut Rng, out: &mu
             }
         }
     }
+}
+
+/// every "slot i of a cell := the UUID of another vertex" corruption of a SMALL document (two or
+/// three cells): the corrupted cell may become a copy of another cell in a different vertex order,
+/// a cell with a repeated vertex, or a different valid-looking cell; the decode model and the
+/// loader must agree on every one, and whatever loads must be structurally consistent
+fn exhaustive_replace<const D: usize>(id: &str, w: &mut World<D>, out: &mut Out) {
+    let Ok(Ok(doc)) = catch(|| serde_json::to_value(w.dt.tds())) else { return };
+    let Some(cv) = doc.get("cell_vertices").and_then(|m| m.as_object()) else { return };
+    if cv.len() > 3 { return; }
+    let uuids: Vec<String> = doc.get("vertices").and_then(|v| v.as_array()).map(|a| a.iter().filter_map(|s| s.get("value")?.get("uuid")?.as_str().map(|x| x.to_string())).collect()).unwrap_or_default();
+    let keys: Vec<String> = cv.keys().cloned().collect();
+    let mut n = 0usize;
+    for k in &keys {
+        let len = cv[k].as_array().map_or(0, |l| l.len());
+        for i in 0..len {
+            for u in &uuids {
+                if cv[k][i].as_str() == Some(u.as_str()) { continue; }
+                let mut bad = doc.clone();
+                bad["cell_vertices"][k][i] = Value::String(u.clone());
+                n += 1;
+                let name = "replaced_vertex_uuid";
+                let cid = format!("{id}_{n}");
+                let text = bad.to_string();
+                let r = catch(|| serde_json::from_str::<T<D>>(&text).map_err(|e| e.to_string()));
+                match &r {
+                    Ok(Ok(tds)) => emit_sdoc::<D>(&cid, name, &bad, Some(tds), "loaded", out),
+                    Ok(Err(_)) => emit_sdoc::<D>(&cid, name, &bad, None, "rejected", out),
+                    Err(_) => emit_sdoc::<D>(&cid, name, &bad, None, "panic", out),
+                }
+                if let Ok(Ok(tds)) = r {
+                    let dt: DelaunayTriangulation<FastKernel<f64>, tri::VData, tri::CData, D> =
+                        DelaunayTriangulation::from_tds_with_topology_guarantee(tds, FastKernel::new(), tri::guarantee(w.g));
+                    let mut ids = Ids::default();
+                    out.case(&format!("{cid}_{name}"), "cx", &format!("D={D} g={} expect=valid12 corruption={name}", w.g));
+                    out.obs("loaded", "1");
+                    tri::export(&dt, &mut ids, out);
+                    tri::observe_validators(&dt, out, false);
+                    out.end();
+                }
+            }
+        }
+    }
+}
+
+fn small_docs<const D: usize>(hid: usize, rng: &mut Rng, out: &mut Out) {
+    // D+2 points in general position: two (or three) cells
+    let pts = gens::to_f(&gens::general_position(rng, D, D + 2, 6), 1.0, 0.0);
+    let Some(mut w): Option<World<D>> = hist::start_built::<D>(&pts, 1, rng) else { return };
+    if w.dt.number_of_cells() == 0 { return; }
+    exhaustive_replace::<D>(&format!("x{D}_{hid}"), &mut w, out);
 }
 
 fn one<const D: usize>(hid: usize, rng: &mut Rng, out: &mut Out) {
@@ -278,6 +336,11 @@ pub fn run(cfg: &Cfg, rng: &mut Rng, out: &mut Out) {
         one::<3>(h, rng, out);
         one::<4>(h, rng, out);
         one::<5>(h, rng, out);
+    }
+    for h in 0..(if thorough { 6 } else { 2 }) {
+        small_docs::<2>(h, rng, out);
+        small_docs::<3>(h, rng, out);
+        if h == 0 || thorough { small_docs::<4>(h, rng, out); }
     }
     for h in 0..(if thorough { 12 } else { 3 }) {
         cellless::<2>(h, rng, out);
